@@ -750,3 +750,43 @@ def _slice_iter_position(w, st, fr, path, targs, args, dty):
         w.assume(s2, tm.cmp("ult", pos, tm.binop("sub", n, i)), 1)
         return some(pos)
     return ForkValues([(found, 1, hit), (found, 0, NONE)])
+
+
+def _slice_eq_model(negate):
+    def f(w, st, fr, path, targs, args, dty):
+        """element-wise comparison of two arrays / slices whose elements are known terms"""
+        vals = []
+        for a in args[:2]:
+            if not isinstance(a, Ref):
+                return NOT_HANDLED
+            v = w.load(st, a.obj, a.proj)
+            if not (isinstance(v, Agg) and v.kind == ("array",) and all(isinstance(x, T) for x in v.fields)):
+                return NOT_HANDLED
+            fields = list(v.fields)
+            if a.meta is not None:
+                # a prefix view of the array (`a[..n]`)
+                if not (isinstance(a.meta, T) and a.meta.is_const() and a.meta.val <= len(fields)):
+                    return NOT_HANDLED
+                fields = fields[:a.meta.val]
+            vals.append(fields)
+        x, y = vals
+        if len(x) != len(y):
+            r = tm.FALSE
+        else:
+            r = tm.TRUE
+            for p, q in zip(x, y):
+                if p.bits != q.bits:
+                    return NOT_HANDLED
+                r = tm.binop("and", r, tm.cmp("eq", p, q))
+        return tm.unop("not", r) if negate else r
+    return f
+
+
+from .walk import _builtin_key as _bk   # noqa: E402
+for _m, _neg in (("eq", False), ("ne", True)):
+    _paths = ["core::array::equality::<impl core::cmp::PartialEq<[U; N]> for [T]>::" + _m,
+              "core::array::equality::<impl core::cmp::PartialEq<[U]> for [T; N]>::" + _m,
+              "core::array::equality::<impl core::cmp::PartialEq<[U; N]> for [T; N]>::" + _m,
+              "core::array::equality::<impl core::cmp::PartialEq<[U; N]> for &[T]>::" + _m,
+              "core::slice::cmp::<impl core::cmp::PartialEq<[U]> for [T]>::" + _m]
+    builtin(*(_paths + [_bk(p) for p in _paths]))(_slice_eq_model(_neg))
